@@ -97,7 +97,7 @@ func finish(s Scn, frames [2]int) Scn {
 			s.K = -1
 		}
 		s.KClass = kClass(s.K, f)
-	case "big-write":
+	case "big-write", "big-stall":
 		s.KClass = fmt.Sprintf("big-%dKiB", s.K)
 	default:
 		s.K, s.KClass, s.Dir = 0, "-", ""
@@ -111,7 +111,7 @@ func finish(s Scn, frames [2]int) Scn {
 		s.Detector = "writer"
 	case script == "drop":
 		s.Detector = "reader"
-	case script != "" || s.Base == "big-write":
+	case script != "" || s.Base == "big-write" || s.Base == "big-stall":
 		s.Detector = "both"
 	default:
 		s.Detector = "reader"
@@ -125,7 +125,7 @@ func finish(s Scn, frames [2]int) Scn {
 		s.Class = "during-redial"
 	case s.Base == "awaiting":
 		s.Class = "awaiting-reply"
-	case s.Base == "mid-write" || s.Base == "big-write":
+	case s.Base == "mid-write" || s.Base == "big-write" || s.Base == "big-stall":
 		s.Class = "mid-write"
 	default:
 		s.Class = "idle"
@@ -162,6 +162,8 @@ func scenarios(tier string, seed int64) []Scn {
 		add(Scn{Budget: 3, Base: "mid-write", Dir: "s2c", K: s2c / 2, UserID: true})
 		add(Scn{Budget: 1, Base: "big-write", K: 1024, RST: true})
 		add(Scn{Budget: -1, Base: "big-write", K: 0})
+		add(Scn{Budget: 3, Base: "big-stall", K: 512, UserID: true})
+		add(Scn{Budget: 1, Base: "big-stall", K: 0, Hook: "handshake"})
 		// idle, awaiting
 		add(Scn{Budget: 0, Base: "idle"})
 		add(Scn{Budget: 3, Base: "idle", UserID: true, RST: true})
@@ -228,6 +230,10 @@ func scenarios(tier string, seed int64) []Scn {
 	for _, b := range budgets {
 		for _, k := range []int{0, 64, 1024, 4096, 8000} {
 			addb(Scn{Budget: b, Base: "big-write", K: k, RST: k%128 == 0, UserID: true})
+			addb(Scn{Budget: b, Base: "big-stall", K: k, Hook: hooks[(k/64)%2], UserID: k%128 != 0})
+			if b > 0 {
+				addb(Scn{Budget: b, Base: "big-stall", K: k, Refuse: -1, Mode: []string{"reject", "down"}[(k/64)%2]})
+			}
 		}
 	}
 	// idle / awaiting
